@@ -259,6 +259,14 @@ func (c *Ctx) Begin(index int) bool {
 	return true
 }
 
+// Evals adds n to the number of evaluations (for cases that bundle many
+// inputs under one Begin).
+func (c *Ctx) Evals(n int64) {
+	c.w.mu.Lock()
+	c.w.evals += n
+	c.w.mu.Unlock()
+}
+
 // Index returns the index of the current case.
 func (c *Ctx) Index() int { return c.index }
 
